@@ -1895,3 +1895,117 @@ func c01fastgoPerFile(c *core.Check) {
 	c.Decide(selfCheck, "fastgo-per-file-names-unique", key+"/self-import", c.Prog.Rel(fd.Pos()), "includes of the file's own package are not imported",
 		"every include is imported without comparing its import path with the file's own: an include that shares the Go namespace makes the generated package import itself (import cycle)")
 }
+
+// ---------------------------------------------------------------------------------------------------------------------
+// C04: "duplicate field id / field name" must be diagnosed in every kind of field list. Rule: every AST edge of type
+// []*parser.Field (enumerated through go/types: StructLike.Fields, Function.Arguments, Function.Throws, …) is read inside a
+// checker function that contains an id-uniqueness loop (a map[int32]bool indexed by a field's ID guarding an error).
+func c04fieldListsChecked(c *core.Check) {
+	ppk := c.Prog.Pkg("parser")
+	spk := c.Prog.Pkg("semantic")
+	info := spk.TypesInfo
+	// the edges
+	type edge struct{ owner, field string }
+	var edges []edge
+	sc := ppk.Types.Scope()
+	for _, n := range sc.Names() {
+		tn, ok := sc.Lookup(n).(*types.TypeName)
+		if !ok {
+			continue
+		}
+		st, ok := tn.Type().Underlying().(*types.Struct)
+		if !ok {
+			continue
+		}
+		for i := 0; i < st.NumFields(); i++ {
+			if strings.HasSuffix(st.Field(i).Type().String(), "[]*"+core.Module+"/parser.Field") {
+				edges = append(edges, edge{n, st.Field(i).Name()})
+			}
+		}
+	}
+	// checker functions with an id-uniqueness loop, and the field-list edges they read
+	covered := map[string]string{}
+	for _, f := range spk.Syntax {
+		for _, d := range f.Decls {
+			fd, ok := d.(*ast.FuncDecl)
+			if !ok || fd.Body == nil || core.RecvName(fd) != "checker" {
+				continue
+			}
+			// walk with a stack of enclosing range statements; at an id-uniqueness test record what the ranges iterate over
+			var ranges []*ast.RangeStmt
+			var stack []ast.Node
+			noteEdges := func(e ast.Expr) {
+				ast.Inspect(e, func(n ast.Node) bool {
+					se, ok := n.(*ast.SelectorExpr)
+					if !ok {
+						return true
+					}
+					if sel, ok := info.Selections[se]; ok && sel.Kind() == types.FieldVal && strings.HasSuffix(sel.Type().String(), "[]*"+core.Module+"/parser.Field") {
+						owner := sel.Recv().String()
+						owner = owner[strings.LastIndex(owner, ".")+1:]
+						covered[owner+"."+se.Sel.Name] = fd.Name.Name
+					}
+					return true
+				})
+			}
+			ast.Inspect(fd.Body, func(n ast.Node) bool {
+				if n == nil {
+					top := stack[len(stack)-1]
+					stack = stack[:len(stack)-1]
+					if rs, ok := top.(*ast.RangeStmt); ok && len(ranges) > 0 && ranges[len(ranges)-1] == rs {
+						ranges = ranges[:len(ranges)-1]
+					}
+					return true
+				}
+				stack = append(stack, n)
+				if rs, ok := n.(*ast.RangeStmt); ok {
+					ranges = append(ranges, rs)
+				}
+				is, ok := n.(*ast.IfStmt)
+				if !ok {
+					return true
+				}
+				ix, ok := ast.Unparen(is.Cond).(*ast.IndexExpr)
+				if !ok || !strings.HasSuffix(rules.ExprString(ix.Index), ".ID") {
+					return true
+				}
+				if tv, ok := info.Types[ix.X]; !ok || tv.Type.Underlying().String() != "map[int32]bool" {
+					return true
+				}
+				diagnoses := false
+				for _, st := range is.Body.List {
+					if as, ok := st.(*ast.AssignStmt); ok && len(as.Lhs) == 1 && rules.ExprString(as.Lhs[0]) == "err" {
+						diagnoses = true
+					}
+					if rs, ok := st.(*ast.ReturnStmt); ok && len(rs.Results) > 0 && !rules.IsNil(info, rs.Results[len(rs.Results)-1]) {
+						diagnoses = true
+					}
+				}
+				if !diagnoses || len(ranges) == 0 {
+					return true
+				}
+				// the list the innermost loop iterates: a field-list edge itself, or a member of the element of an outer loop
+				// over a literal that names the edges
+				inner := ranges[len(ranges)-1]
+				noteEdges(inner.X)
+				if se, ok := ast.Unparen(inner.X).(*ast.SelectorExpr); ok {
+					if base, ok := se.X.(*ast.Ident); ok {
+						for _, outer := range ranges[:len(ranges)-1] {
+							if v, ok := outer.Value.(*ast.Ident); ok && info.Defs[v] != nil && info.Uses[base] == info.Defs[v] {
+								noteEdges(outer.X)
+							}
+						}
+					}
+				}
+				return true
+			})
+		}
+	}
+	for _, e := range edges {
+		k := e.owner + "." + e.field
+		c.Decide(covered[k] != "", "field-lists-checked-for-duplicates", "semantic.checker/"+k, "semantic/checker.go",
+			"ids (and names) of "+k+" are checked for duplicates in "+covered[k],
+			"no checker function with an id-uniqueness test reads "+k+": a duplicate field id or name in that list is accepted with exit status 0 (for argument and throws lists this yields Go code that does not compile or an ambiguous wire format)")
+	}
+	c.Min("field-lists-checked-for-duplicates", 3)
+}
